@@ -1,6 +1,8 @@
 import NimaVerif.Lemmas.ScopedCreate
 /-! The other layers and the body are literally unchanged by a scoped edit (under `layerSeparated`). -/
 namespace Nima
+-- name tokens are compared by spelling in this file (see `NameCmp` in Model/Edit.lean)
+attribute [local instance] NameCmp.spelled
 
 open Node EditM
 
